@@ -41,8 +41,12 @@ R = Rules(
         "ClientObservation.error() refuses a cancelled observation and "
         "ends in cancel(), which nulls both callback lists; BlockwiseRequest._run_observation forwards every "
         "completed notification, signals a normal end once, forwards exceptions and cancels the lower "
-        "observation in its finally block.  Not decided: what the lossy async iterator delivers under "
-        "arbitrary task scheduling."
+        "observation in its finally block.  Over coap+tcp / coaps+tcp the end of a connection reaches the token "
+        "manager's error fan-out as a joint invariant of three places (C07.i): the pool's relay hands (error, connection) "
+        "on for a set of None-nesses of the error decided over its path model, connection_lost reports every end "
+        "(None after an orderly close included) with a value inside that set, and where the peer's Release / Abort "
+        "surfaces every way out reports it or closes the transport and so leaves it to connection_lost.  "
+        "Not decided: what the lossy async iterator delivers under arbitrary task scheduling."
     ),
     rule_text="condition reconstruction (path conditions + reaching definitions) compared semantically with the RFC 7641 formula; must-pass path rules on per-function CFGs",
 )
@@ -1362,6 +1366,236 @@ def h_shared(ctx):
     c02.j_forward(ctx)
 
 
+# ---------------------------------------------------------------------------
+# C07.i  the end of a CoAP-over-TCP/TLS connection reaches the token manager's error fan-out
+
+TCP_MOD = "transports.tcp"
+CLOSE_EXC = "transports.rfc8323common.CloseConnection"
+SINK = "tokenmanager.TokenManager.dispatch_error"
+
+
+def _owner_class(fi):
+    while fi is not None and fi.cls is None:
+        fi = fi.parent
+    return fi.cls if fi is not None else None
+
+
+def _bind_args(call, ps):
+    """{parameter: argument expression} of a call to a function with (non-self) parameters ps, or None"""
+    if any(isinstance(a_, ast.Starred) for a_ in call.args) or any(k.arg is None for k in call.keywords) or len(call.args) > len(ps):
+        return None
+    out = dict(zip(ps, call.args))
+    for k in call.keywords:
+        if k.arg in out or k.arg not in ps:
+            return None
+        out[k.arg] = k.value
+    return out
+
+
+def _tcp_relays(ctx, mfuncs):
+    """The methods of the transport module through which a connection's end is reported to the token manager:
+    those that call <a field of self>.dispatch_error(exception, remote).  -> [(function, connection parameter,
+    other parameter, token manager field, forwarding calls)]"""
+    prog = ctx.prog
+    sink = prog.func(SINK)
+    sp = params(sink)
+    ctx.need(len(sp) == 2, "TokenManager.dispatch_error(self, exception, remote) signature changed")
+    out, seen = [], 0
+    for fi in mfuncs:
+        if fi.cls is None:
+            continue
+        cand = []
+        for c in calls_in(fi.node):
+            if isinstance(c.func, ast.Attribute) and c.func.attr == sink.name:
+                rc = chain(resolve_local(fi.node, c.func.value)) or ""
+                if rc.startswith("self.") and rc.count(".") == 1:
+                    cand.append((c, rc))
+        if not cand:
+            continue
+        seen += 1
+        ps = params(fi)
+        ctx.need(len(ps) == 2 and not any(writes_to_name(fi.node, p_) for p_ in ps),
+                 "%s reports to the token manager but is not a plain (connection, error) relay: parameters %s" % (fi.short, ps))
+        fields = {rc for _c, rc in cand}
+        ctx.need(len(fields) == 1, "%s reports to several objects (%s)" % (fi.short, ", ".join(sorted(fields))))
+        good, conn = [], set()
+        for c, _rc in cand:
+            b = _bind_args(c, sp)
+            r_ = resolve_local(fi.node, b[sp[1]]) if b is not None and sp[1] in b else None
+            if isinstance(r_, ast.Name) and r_.id in ps and b is not None and sp[0] in b:
+                good.append(c)
+                conn.add(r_.id)
+        ctx.ob("the connection whose end is reported is named as the remote of the error", bool(good) and len(conn) == 1, fi, cand[0][0], construct="%s  [remote]" % stmt_text(cand[0][0]))
+        if good and len(conn) == 1:
+            cp = conn.pop()
+            out.append((fi, cp, [p_ for p_ in ps if p_ != cp][0], fields.pop(), good))
+    ctx.floor("methods of transports.tcp that report a connection's end to the token manager", seen, 1)
+    return out
+
+
+@R.clause("C07.i", "coap+tcp / coaps+tcp: however a connection ends (Release / Abort from the peer, orderly close, reset), the token manager's dispatch_error is told for that connection, so that the observations on it end with a network error")
+def i_tcp_end(ctx):
+    """The invariant is a joint one of three places and is stated as such.  (1) The relay (_TCPPooling._dispatch_error
+    today) hands (error, connection) to TokenManager.dispatch_error for the set FWD of None-nesses of its error
+    argument (decided over the path model, under 'a token manager is attached').  (2) connection_lost -- which asyncio
+    calls exactly once for every connection, with None after an orderly end (EOF from the peer, or our own close())
+    and with the exception otherwise -- calls the relay on every path with values inside FWD.  (3) Where the
+    peer's Release / Abort surfaces (the handler of CloseConnection), every way out of the handler either calls
+    the relay itself with a value inside FWD, or closes the transport *and* (2) holds, because then the report
+    is left to connection_lost.  Either site may change as long as the chain stays closed: dropping the explicit
+    report is fine while clean closes are reported; ignoring clean closes in the relay is fine only if nobody
+    relies on them, and connection_lost always does for an EOF without Release.  What the token manager does
+    with the report is C07.h; what the runner does with the resulting event is C07.c."""
+    from ._kit_c07 import nullness, not_handed_on, NONE, OBJ, BOTH
+    prog = ctx.prog
+    mod = prog.module(TCP_MOD)
+    ccq = prog.cls(CLOSE_EXC).qn
+    mfuncs = sorted((fi for fi in prog.funcs.values() if fi.module is mod), key=lambda f_: f_.qn)
+    relays = _tcp_relays(ctx, mfuncs)
+    if not relays:
+        return  # reported above: the relay does not name the connection
+    relay_names = {r_[0].name for r_ in relays}
+    lost = {}  # relay function -> {None-ness: witness path}
+    for pfi, cp, ep, field, good in relays:
+        al = {}
+        for n in walk_no_nested(pfi.node):
+            if isinstance(n, ast.Assign) and len(n.targets) == 1 and isinstance(n.targets[0], ast.Name) and chain(n.value) == field \
+                    and len(writes_to_name(pfi.node, n.targets[0].id)) == 1:
+                al[n.targets[0].id] = field
+        lost[pfi.qn] = not_handed_on(pfi, good, ep, (field,), al)
+        ctx.ob("with a token manager attached, an error reported for a connection is handed to its dispatch_error on every path", OBJ not in lost[pfi.qn], pfi, good[0],
+               detail="not handed on when %s" % lost[pfi.qn].get(OBJ) if OBJ in lost[pfi.qn] else None, construct="%s  [every error]" % stmt_text(good[0]))
+
+    def dropped(vals):
+        """None-nesses among vals that some relay does not hand on"""
+        return sorted({v for v in vals for l_ in lost.values() if v in l_})
+
+    def relay_sites(g):
+        """[(call, None-ness evaluator of the error argument)] for the calls <pool>.<relay>(self, x) in g"""
+        out = []
+        for c in calls_in(g.node):
+            if not (isinstance(c.func, ast.Attribute) and c.func.attr in relay_names):
+                continue
+            for pfi, cp, ep, _f, _g in relays:
+                if pfi.name != c.func.attr:
+                    continue
+                b = _bind_args(c, params(pfi))
+                if b is not None and cp in b and ep in b and chain(resolve_local(g.node, b[cp])) == "self":
+                    out.append((c, b[ep]))
+                    break
+        return out
+
+    # (2) connection_lost
+    cl_ok = True
+    lost_fns = [fi for fi in mfuncs if fi.cls is not None and fi.name == "connection_lost"]
+    ctx.floor("connection_lost callbacks in transports.tcp", len(lost_fns), 1)
+    for fi in lost_fns:
+        ps = params(fi)
+        ctx.need(len(ps) == 1 and not writes_to_name(fi.node, ps[0]), "%s: connection_lost(self, exc) signature changed" % fi.short)
+        cfg = cfg_of(fi)
+        sites = relay_sites(fi)
+        nodes = {n for c, _a in sites for n in cfg.locate(c)}
+        every = bool(sites) and cfg.must_pass(cfg.entry, nodes)
+        ctx.ob("connection_lost reports the end of the connection to the pool on every path", every, fi, sites[0][0] if sites else fi.node, construct="%s  [reports]" % fi.short)
+        cl_ok = cl_ok and every
+        for v, what in ((NONE, "an orderly end (connection_lost(None): EOF from the peer, or after our own close())"), (OBJ, "a failed connection (connection_lost(exception))")):
+            bad = set()
+            for c, arg in sites:
+                bad |= set(dropped(nullness(prog, fi, arg, {ps[0]: frozenset({v})})))
+            wit = next((l_[b_] for b_ in sorted(bad) for l_ in lost.values() if b_ in l_), None)
+            ctx.ob("%s reaches the token manager" % what, not bad, fi, sites[0][0] if sites else fi.node,
+                   detail="the relay does not hand on an error argument that is %s: %s" % (" / ".join(sorted(bad)), wit) if bad else None,
+                   construct="%s  [%s]" % (fi.short, "orderly end" if v == NONE else "failure"))
+            cl_ok = cl_ok and not bad
+    # the transport really is given up on EOF: eof_received must not ask asyncio to keep it half-open
+    for fi in mfuncs:
+        if fi.cls is not None and fi.name == "eof_received":
+            rets = returned_elements(fi) or []
+            ok = bool(rets) and all(isinstance(v, ast.Constant) and not v.value for _r, v in rets)
+            ctx.ob("eof_received lets asyncio close the transport (a true result would keep it half-open and connection_lost would never come)", ok, fi, fi.node, construct="%s  [result]" % fi.short)
+
+    # (3) the peer's Release / Abort: where CloseConnection is caught
+    args0 = set()  # None-ness of CloseConnection(...).args[0] over all raise sites
+    raisers = set()
+    for fi in prog.funcs.values():
+        for n in walk_no_nested(fi.node):
+            if isinstance(n, ast.Raise) and n.exc is not None:
+                f_ = n.exc.func if isinstance(n.exc, ast.Call) else n.exc
+                if chain(f_) and prog.resolve_in_module(fi.module, chain(f_)) == ccq:
+                    raisers.add(fi.name)
+                    if isinstance(n.exc, ast.Call) and n.exc.args and not isinstance(n.exc.args[0], ast.Starred):
+                        args0 |= nullness(prog, fi, n.exc.args[0])
+                    else:
+                        args0 |= BOTH
+    ctx.floor("functions raising CloseConnection", len(raisers), 1)
+    if "__init__" in prog.classes[ccq].methods or "__new__" in prog.classes[ccq].methods:
+        args0 = set(BOTH)
+    handlers, escaping = [], {}
+    may = set(raisers)
+    changed = True
+    while changed:
+        changed = False
+        handlers = []
+        for g in mfuncs:
+            cfg = None
+            for c in calls_in(g.node):
+                nm = c.func.attr if isinstance(c.func, ast.Attribute) else (c.func.id if isinstance(c.func, ast.Name) else None)
+                if nm not in may:
+                    continue
+                cfg = cfg or cfg_of(g)
+                caught = None
+                for nid in cfg.locate(c):
+                    for h, lab in cfg.succ[nid]:
+                        if lab == "exc" and cfg.nodes[h].kind == "handler" and caught is None:
+                            types = _handler_classes(prog, g, cfg.nodes[h].ast)
+                            if any(t == ccq or t in prog.mro(ccq) for t in types):
+                                caught = h
+                if caught is not None:
+                    if not any(x[0] is g and x[1] == caught for x in handlers):
+                        handlers.append((g, caught, c))
+                elif g.name not in may:
+                    escaping[g.qn] = (g, c)
+                    may.add(g.name)
+                    changed = True
+    ctx.floor("places in transports.tcp where the peer's Release / Abort (CloseConnection) surfaces", len(handlers) + len(escaping), 1)
+    close_route = "connection_lost does not report %s" % ("every end" if not cl_ok else "")
+    for g, h, call in handlers:
+        cfg = cfg_of(g)
+        hast = cfg.nodes[h].ast
+        env = {"%s.args[0]" % hast.name: frozenset(args0)} if hast.name else {}
+        ok_sites, why = set(), []
+        for c, arg in relay_sites(g):
+            bad = dropped(nullness(prog, g, arg, env))
+            if bad:
+                why.append("%s passes an error that is %s, which the relay does not hand on" % (stmt_text(c), " / ".join(bad)))
+            else:
+                ok_sites |= set(cfg.locate(c))
+        oc = _owner_class(g)
+        made = prog.lookup_method(oc.qn, "connection_made") if oc is not None else None
+        tfields = set()
+        if made is not None and len(params(made)) == 1:
+            tfields = {c_ for _st, c_, v in _attr_assignments(made.node) if v is not None and isinstance(resolve_local(made.node, v), ast.Name) and resolve_local(made.node, v).id == params(made)[0]}
+        for c in calls_in(g.node):
+            if isinstance(c.func, ast.Attribute) and c.func.attr in ("close", "abort") and not c.args and chain(resolve_local(g.node, c.func.value)) in tfields:
+                if cl_ok:
+                    ok_sites |= set(cfg.locate(c))
+                else:
+                    why.append("%s leaves the report to connection_lost, and %s" % (stmt_text(c), close_route.strip()))
+        region = cfg.reach({h}, avoid=ok_sites, skip_labels=("exc",), include_src=True)
+        leaves = [n for n in region if n in (cfg.exit, cfg.rexit) or (cfg.nodes[n].ast is not None and cfg.nodes[n].kind != "join" and n != h and not contains(hast, cfg.nodes[n].ast))]
+        reraises = [n for n in region if cfg.nodes[n].kind == "raise" and contains(hast, cfg.nodes[n].ast)]
+        if reraises and not cl_ok:
+            why.append("the handler re-raises into asyncio, which reports through connection_lost, and %s" % close_route.strip())
+        ctx.ob("when the peer says Release / Abort the pending exchanges of the connection are failed: every way out of the handler reports the error to the pool itself or closes the transport "
+               "(then connection_lost reports)", not leaves and not (reraises and not cl_ok), g, hast,
+               detail="; ".join(why) or "a way out of the handler neither reports nor closes", construct="except %s  [reported]" % (stmt_text(hast.type) if hast.type is not None else ""))
+    for _q, (g, c) in sorted(escaping.items()):
+        # nobody in the module catches it: it leaves the asyncio callback, asyncio aborts the transport and calls
+        # connection_lost(exception)
+        ctx.ob("a CloseConnection nobody catches leaves the protocol callback; asyncio then reports through connection_lost, which must reach the token manager", cl_ok, g, c,
+               construct="%s  [uncaught]" % stmt_text(c))
+
+
 F_PRO = "aiocoap/protocol.py"
 F_TM = "aiocoap/tokenmanager.py"
 F_CON = "aiocoap/numbers/constants.py"
@@ -1422,3 +1656,11 @@ R.seed("C07.d", F_TM, "        request.add_response(response, is_last=final)\n",
 R.seed("C07.d", F_TM, "        if final:\n            self.outgoing_requests.pop(key)\n", "        if final and key[1] is not None:\n            self.outgoing_requests.pop(key)\n", "tokens matched under the fall-back key are never forgotten")
 R.seed("C07.c", F_PRO, "            self.observation.error(error.NotObservable())\n", "            self.observation.error(error.ObservationCancelled())\n", "a non-observable resource is reported as a cancelled observation")
 R.seed("C07.c", F_PRO, "                self.observation.error(next_event.exception)\n", "                self.observation.error(error.ObservationCancelled())\n", "transport failure reported as a regular end")
+
+# seeds for C07.i (fifth pass: the end of a CoAP-over-TCP connection reaches the token manager)
+F_TCP = "aiocoap/transports/tcp.py"
+R.seed("C07.i", F_TCP, "        self._tokenmanager.dispatch_error(exc, connection)\n", "        if exc is not None:\n            self._tokenmanager.dispatch_error(exc, connection)\n", "an orderly close (connection_lost(None)) ends nothing: observations on the connection wait forever")
+R.seed("C07.i", F_TCP, "        self._ctx._dispatch_error(self, exc)\n", "        if exc is not None:\n            self._ctx._dispatch_error(self, exc)\n", "connection_lost keeps clean closes to itself")
+R.seed("C07.i", F_TCP, "                    self._ctx._dispatch_error(self, e.args[0])\n                    self._transport.close()\n", "                    self.log.info(\"Peer is leaving: %s\", e)\n", "Release / Abort neither reported nor followed by a close")
+R.seed("C07.i", F_TCP, "        self._tokenmanager.dispatch_error(exc, connection)\n", "        self._tokenmanager.dispatch_error(exc, self)\n", "error reported for the pool instead of the connection: matches no request")
+R.seed("C07.i", F_TCP, "        # FIXME: return true and initiate own shutdown if that is what CoAP prescribes\n        pass\n", "        # FIXME: return true and initiate own shutdown if that is what CoAP prescribes\n        return True\n", "half-open transport: connection_lost never comes after the peer's FIN")
